@@ -28,11 +28,13 @@ LABEL_POOL = [
 def one_tree(rng, tid, shape=None):
     if shape is None:
         want_ten = rng.random() < 0.15
+        want_more = not want_ten and rng.random() < 0.12
         while True:
-            kind, parent, req = mktree(random_tree(rng, max_nodes=11 if want_ten else rng.choice([4, 7, 11]),
-                                                   p_sched=0.35))
-            # a power of ten as the number of ids is where zero-padding changes width
-            if len(kind) >= 2 and (not want_ten or len(kind) == 11):
+            kind, parent, req = mktree(random_tree(rng, max_nodes=14 if want_more else 11 if want_ten else
+                                                   rng.choice([4, 7, 11]), p_sched=0.35))
+            # a power of ten as the number of ids is where zero-padding changes width; beyond it
+            # ids have two digits, those of the first nested schedulers a padded one
+            if len(kind) >= 2 and (not want_ten or len(kind) == 11) and (not want_more or len(kind) >= 12):
                 break
     else:
         kind, parent, req = shape
